@@ -175,14 +175,19 @@ class Group(EntityContainer):
             return None
 
         if copy_children:
-            for child in self.children:
-                child.copy_from_extent(
-                    extent,
-                    parent=copy_group,
-                    copy_children=True,
-                    clear_cache=clear_cache,
-                    inverse=inverse,
-                )
+            try:
+                for child in self.children:
+                    child.copy_from_extent(
+                        extent,
+                        parent=copy_group,
+                        copy_children=True,
+                        clear_cache=clear_cache,
+                        inverse=inverse,
+                    )
+            except Exception:
+                # a child could not be copied: do not leave a partial group behind
+                copy_group.workspace.remove_entity(copy_group)
+                raise
 
             if len(copy_group.children) == 0:
                 copy_group.workspace.remove_entity(copy_group)
